@@ -116,7 +116,9 @@ def rewrite(F, rep):
                             work.append(bi2)
     guards.sort()
     rep.floor("REWRITE", "branches the rewrite is control-dependent on", len(guards), 3)
-    allowed = {"newtype_checked_ctor", "current_impl_type", "struct_names"}
+    # struct_names is filled in source order while declarations are lowered: a guard that REQUIRES membership there
+    # makes the rewrite depend on whether T is declared above or below the use site (seeded change C17-c)
+    allowed = {"newtype_checked_ctor", "current_impl_type"}
     seen_hook = seen_impl = False
     for b in guards:
         t = f.term(b)
